@@ -5,6 +5,11 @@ ROOT = os.path.dirname(os.path.dirname(os.path.abspath(__file__)))
 BASE_OFF = "cd /repo && env -u BUIDL_VERIF_TRACE /venv/bin/python -m pytest -ra -q -p no:cacheprovider --timeout=900 --continue-on-collection-errors"
 
 CLAIMED = {
+ "C14": dict(
+   text="TLC model-checks the vendored PBKDF2 object's read() as a stream state machine (any sequence of read sizes yields a prefix of T_1||T_2||...), and decides recorded calls: bytes_to_mnemonic / mnemonic_to_bytes for all five entropy sizes against the bit-level BIP39 specification with certified sha256 rows, acceptance of word sequences of every length 11..25 (valid, bad checksum, swapped, unknown word, full words vs unique four-letter prefixes), seeds and master keys for passphrases incl. empty and non-ASCII bytes and for mnemonic sentences of exactly / around the 128-byte HMAC block size, and the RFC 8018 structure of PBKDF2 at small round counts from the HMAC-SHA512 rows the object really computed; model read sequences are replayed on the real object.",
+   design="3/C14",
+   note="Trusted: TLC, BIP39.tla, hashlib (sha256, HMAC-SHA512, pbkdf2_hmac for the 2048-round value), the word list file. Entropy, word sequences and passphrases sampled.",
+   technique="TLA+ bit-level mnemonic spec and PBKDF2 stream machine: TLC model checking + TLC evaluation of recorded calls with certified hash rows"),
  "C13": dict(
    text="TLC evaluates the MuSig aggregation algebra exactly as MuSigTapScript implements it (key coefficients, two-nonce binding factor, parity-dependent negation of nonce and secret, taproot tweak with its parity branch) over a toy curve for all secrets and for coefficient / nonce / binding / challenge / tweak values from small sets: the summed partial signatures always form a valid BIP340 signature and all eight parity branches are exercised. On secp256k1, sessions with 2..5 keys of mixed parities, with and without merkle root (incl. several roots on one object), are decided in the discrete-log representation from certified tagged-hash rows whose inputs TLC builds itself; sessions with a dropped, altered or duplicated partial must raise; aggregate keys are order independent; k-of-n trees own exactly the k-subsets (TLC set computation) and sampled leaf spends verify through Tx.verify_input.",
    design="3/C13",
